@@ -92,7 +92,7 @@ fn crash_site(scn: &Scenario) -> (&'static str, &'static str) {
 
 /// Child side: one JSON scenario per input line, one JSON outcome per output line.
 pub fn worker_main(prop: &str) {
-    crate::core::start_heartbeat();
+    if prop == "C20" { crate::core::start_heartbeat(); }
     let stdin = std::io::stdin();
     let stdout = std::io::stdout();
     for line in stdin.lock().lines() {
